@@ -200,7 +200,7 @@ def legal_boundary(variants, p, alleles=None, is_end=False):
 
 
 def simulate_reads(rng, sc, sample, chrom, n_reads, len_range=(60, 200), name_prefix=None, qual=30,
-                   paired_fraction=0.0, insert_range=(30, 120), edge_fraction=0.0):
+                   paired_fraction=0.0, insert_range=(30, 120), edge_fraction=0.0, softclip_fraction=0.0):
     """Error-free reads of `sample` on `chrom`. Each read copies one true haplotype. Returns list of dicts:
     name, sample, chrom, start (0-based), cigar [(op,len)], seq, qual (int), hap, flag, mate info for pairs."""
     ref = sc.ref[chrom]
@@ -254,6 +254,13 @@ def simulate_reads(rng, sc, sample, chrom, n_reads, len_range=(60, 200), name_pr
                                   flag=0x1 | 0x2 | 0x80 | 0x10, mate_start=s))
                 continue
         reads.append(dict(name=name, sample=sample, chrom=chrom, start=s, cigar=cig, seq=seq, qual=qual, hap=h, flag=0))
+    if softclip_fraction > 0:
+        # random soft-clipped bases in front of / behind the aligned part (they are not part of the alignment)
+        for r in reads:
+            if rng.random() < softclip_fraction:
+                a, b = rng.randint(0, 6), rng.randint(0, 6)
+                r["seq"] = random_seq(rng, a) + r["seq"] + random_seq(rng, b)
+                r["cigar"] = ([("S", a)] if a else []) + list(r["cigar"]) + ([("S", b)] if b else [])
     return reads
 
 
